@@ -53,9 +53,9 @@ type Options struct {
 	// station that greets at once; of an incoming call: the caller's first frames), i.e. before any further
 	// query of the host is answered.
 	DialGreeting [][]byte
-	Split         Splitter      // segmentation of frames the simulator originates itself
-	PiecePause    time.Duration // TCP: pause between the pieces of one frame
-	ProbeAfter    time.Duration // after CRCFAULT: unsolicited BUFFER if nothing is retransmitted
+	Split        Splitter      // segmentation of frames the simulator originates itself
+	PiecePause   time.Duration // TCP: pause between the pieces of one frame
+	ProbeAfter   time.Duration // after CRCFAULT: unsolicited BUFFER if nothing is retransmitted
 }
 
 type Event struct {
